@@ -55,7 +55,35 @@ var bld = []wk.TagSpec{{Key: "#building", Value: "yes"}}
 type Op struct {
 	Name string
 	Cat  string
-	F    Feat
+	F    Feat     // AddFeature ops
+	Tag  *TagEdit // tag ops (F is unused)
+}
+
+// TagEdit is an AddTag (Remove false) or RemoveTag call.
+type TagEdit struct {
+	ID         b6.FeatureID
+	Key, Value string
+	Remove     bool
+}
+
+func (o Op) IsTag() bool { return o.Tag != nil }
+
+// Target is the feature the op adds, replaces or edits.
+func (o Op) Target() b6.FeatureID {
+	if o.Tag != nil {
+		return o.Tag.ID
+	}
+	return o.F.ID
+}
+
+func (o Op) String() string {
+	switch {
+	case o.Tag == nil:
+		return "AddFeature(" + o.F.String() + ")"
+	case o.Tag.Remove:
+		return fmt.Sprintf("RemoveTag(%s, %s)", o.Tag.ID, o.Tag.Key)
+	}
+	return fmt.Sprintf("AddTag(%s, %s=%s)", o.Tag.ID, o.Tag.Key, o.Tag.Value)
 }
 
 func ref(i int) wk.PathPt   { return wk.PathPt{Ref: P(i)} }
@@ -64,8 +92,28 @@ func lit(l wk.LL) wk.PathPt { return wk.PathPt{LL: l} }
 // Ops is the alphabet: valid additions/replacements and the statement's
 // invalid ones. Whether an op is invalid in a state is decided by the model
 // (e.g. an open W0 is fine unless an area lies over W0).
-func Ops() []Op {
+func Ops() []Op { return append(FeatureOps(), TagOps()...) }
+
+// TagOps: plain-key edits (recorded by an overlay as tag modifications of the
+// base feature) and searchable-key edits (which copy the feature into the
+// overlay and re-index it) of a seed point and the seed path.
+func TagOps() []Op {
 	return []Op{
+		{Name: "tag-p1-name", Cat: "tag-plain-modified", Tag: &TagEdit{ID: P(1), Key: "name", Value: "edited"}},
+		{Name: "untag-p1-name", Cat: "tag-plain-removed", Tag: &TagEdit{ID: P(1), Key: "name", Remove: true}},
+		{Name: "tag-w0-note", Cat: "tag-plain-added", Tag: &TagEdit{ID: Wy(0), Key: "note", Value: "x"}},
+		{Name: "untag-w0-name", Cat: "tag-plain-removed", Tag: &TagEdit{ID: Wy(0), Key: "name", Remove: true}},
+		{Name: "tag-p1-#shop", Cat: "tag-searchable-added", Tag: &TagEdit{ID: P(1), Key: "#shop", Value: "yes"}},
+		{Name: "untag-w0-#highway", Cat: "tag-searchable-removed", Tag: &TagEdit{ID: Wy(0), Key: "#highway", Remove: true}},
+	}
+}
+
+func FeatureOps() []Op {
+	type fo struct {
+		Name, Cat string
+		F         Feat
+	}
+	list := []fo{
 		// points
 		{"p0-moved", "point-moved(loop-stays-valid)", pt(0, wk.G(-1, -1), wk.TagSpec{Key: "name", Value: "moved"})},
 		{"p1-to-bowtie", "point-moved(loop-self-intersects)", pt(1, wk.G(1, -1))},
@@ -100,10 +148,13 @@ func Ops() []Op {
 		{"r0-point+path", "relation", Feat{FSpec: wk.FSpec{ID: Rl(0), Kind: wk.KRelation, Tags: []wk.TagSpec{{Key: "#route", Value: "bus"}}, Members: []wk.MemberSpec{{ID: P(0), Role: "stop"}, {ID: Wy(0)}}}}},
 		{"r0-area+point", "relation", Feat{FSpec: wk.FSpec{ID: Rl(0), Kind: wk.KRelation, Members: []wk.MemberSpec{{ID: Ar(0), Role: "outer"}, {ID: P(1), Role: "x"}}}}},
 	}
+	out := make([]Op, len(list))
+	for i, o := range list {
+		out[i] = Op{Name: o.Name, Cat: o.Cat, F: o.F}
+	}
+	return out
 }
 
-// QuickOps: indices of the alphabet used below depth 1 in the quick tier
-// (every op is still attempted at every state).
 func OpIndex(name string) int {
 	for i, o := range Ops() {
 		if o.Name == name {
@@ -131,7 +182,7 @@ func seedPoints() []Feat {
 
 func Seeds() []Seed {
 	pts := seedPoints()
-	w0 := pathRefs(0, hw, 0, 1, 2, 3, 0)
+	w0 := pathRefs(0, []wk.TagSpec{{Key: "#highway", Value: "path"}, {Key: "name", Value: "loop"}}, 0, 1, 2, 3, 0)
 	a0 := areaBy(0, bld, []b6.FeatureID{Wy(0)})
 	r0 := Feat{FSpec: wk.FSpec{ID: Rl(0), Kind: wk.KRelation, Tags: []wk.TagSpec{{Key: "#route", Value: "bus"}}, Members: []wk.MemberSpec{{ID: Ar(0), Role: "outer"}, {ID: Wy(0)}, {ID: P(0), Role: "stop"}}}}
 	return []Seed{
